@@ -257,6 +257,11 @@ def value_features(mod, t, v, out=None):
     elif k in ("INTEGER", "ENUMERATED"):
         if v > (1 << 63) - 1 or v < -(1 << 63):
             out.add("int.beyond-long")
+        c = rt.cons
+        if k == "INTEGER" and v < 0 and c is not None and c.ext and c.lb() is not None and c.lb() >= 0 \
+                and (c.ub() is None or (1 << 31) - 1 < c.ub() <= (1 << 32) - 1):
+            # asn1c_type_fits_long() picks `unsigned long` from the root of an extensible constraint
+            out.add("int.negative-vs-unsigned-ext-root")
     elif k == "REAL":
         if v == v and v != 0 and abs(v) < 2.2250738585072014e-308:
             out.add("real.subnormal")
